@@ -69,10 +69,19 @@ class Projector:
         return v
 
     def enum(self, v):
-        return v.name
+        return self.scalar_ops(v.name, type(v).__name__)
 
     def strlike(self, v):
-        return str(v)
+        return self.scalar_ops(str(v), type(v).__name__)
+
+    def scalar_ops(self, text, name):
+        for cn in self.sweeten_order(name):
+            for op in self.by[cn].get('sweeten') or []:
+                if op[0] == 'scalar_lower':
+                    text = text.lower()
+                else:
+                    raise ValueError(op)
+        return text
 
     def chain(self, name):
         """Classes whose sweeten hooks run for an object of class `name`:
